@@ -780,6 +780,11 @@ class RequestHandler(BaseProtocol, Generic[_Request]):
                         self.log_debug("Uncompleted request.")
                         self.close()
 
+                # The parser defers an upgrade until the body of the request
+                # has been read: if that was only after the handler returned,
+                # the response that declined the upgrade is already out.
+                self._resume_after_declined_upgrade()
+
                 payload.set_exception(_PAYLOAD_ACCESS_ERROR)
 
             except asyncio.CancelledError:
@@ -814,20 +819,8 @@ class RequestHandler(BaseProtocol, Generic[_Request]):
             if self.transport is not None:
                 self.transport.close()
 
-    async def finish_response(
-        self, request: BaseRequest, resp: StreamResponse, start_time: float | None
-    ) -> tuple[StreamResponse, bool]:
-        """Prepare the response and write_eof, then log access.
-
-        This has to
-        be called within the context of any exception so the access logger
-        can get exception information. Returns True if the client disconnects
-        prematurely.
-        """
-        request._finish()
-
-        # Handle feeding the message tail following an upgrade request that
-        # was declined.
+    def _resume_after_declined_upgrade(self) -> None:
+        """Go back to parsing requests after an upgrade request was answered normally."""
         # The upgrade request is the last request before the parser paused,
         # so wait for self._messages to be empty.
         # payload_parser is not None if the upgrade was accepted.
@@ -876,6 +869,22 @@ class RequestHandler(BaseProtocol, Generic[_Request]):
                 # This shouldn't be possible. If a future refactor results in this
                 # failing, then the code may need to be updated to set the waiter.
                 assert self._waiter is None
+
+    async def finish_response(
+        self, request: BaseRequest, resp: StreamResponse, start_time: float | None
+    ) -> tuple[StreamResponse, bool]:
+        """Prepare the response and write_eof, then log access.
+
+        This has to
+        be called within the context of any exception so the access logger
+        can get exception information. Returns True if the client disconnects
+        prematurely.
+        """
+        request._finish()
+
+        # Handle feeding the message tail following an upgrade request that
+        # was declined.
+        self._resume_after_declined_upgrade()
         try:
             prepare_meth = resp.prepare
         except AttributeError:
